@@ -273,6 +273,17 @@ func c09RunCase(c c09Case) (obs string, viols []mc.Violation) {
 		fail("never-converges", "the retry queue still holds %d entries after 6 retry intervals", n)
 	}
 	checkProgress("at the end")
+	nevs, bad := c09Final(w, evCh, snap, acked, fail)
+	if bad {
+		return "error", viols
+	}
+	w.clean = true
+	return fmt.Sprintf("applied=%v repaired-events=%d acked=%d", fApplied, nevs, len(acked)), viols
+}
+
+// c09Final: the convergence oracle - the events delivered to a watcher opened before the fault, applied to
+// the snapshot taken then, give exactly what the store holds; every acknowledged write was delivered and is durable.
+func c09Final(w *world, evCh <-chan []*proto.Event, snap map[string]mkv, acked []*clientOp, fail func(sig, f string, a ...interface{})) (int, bool) {
 	// events delivered to the watcher
 	var evs []evRec
 	for {
@@ -292,7 +303,7 @@ func c09RunCase(c c09Case) (obs string, viols []mc.Violation) {
 	final, err := w.b.List(bg, &proto.RangeRequest{Key: []byte("/r/"), End: []byte("/r0")})
 	if err != nil {
 		fail("final-list-error", "%v", err)
-		return "error", viols
+		return len(evs), true
 	}
 	got := map[string]mkv{}
 	for _, kv := range final.Kvs {
@@ -318,8 +329,33 @@ func c09RunCase(c c09Case) (obs string, viols []mc.Violation) {
 			fail("acknowledged-write-not-durable", "%s on %s acknowledged at revision %d: a read at that revision returns %v", reqNames[op.Kind], op.Key, int64(op.Hdr)-base, g.Kv)
 		}
 	}
-	w.clean = true
-	return fmt.Sprintf("applied=%v repaired-events=%d acked=%d", fApplied, len(evs), len(acked)), viols
+	// point reads and conditional writes go through the key's revision record, range reads through its
+	// versions: both views must agree with the replayed events
+	for _, k := range c09Keys {
+		wk, live := want[k]
+		g, err := w.b.Get(bg, &proto.GetRequest{Key: []byte(k)})
+		switch {
+		case err != nil:
+			fail("final-get-error", "%s: %v", k, err)
+		case live && !kvEq(g.Kv, wk.val, wk.rev):
+			fail("point-read-and-events-diverge", "snapshot %s plus delivered events %s leaves %s = %q at revision %d, a point read returns %v", snapString(snap), evsString(evs), k, wk.val, int64(wk.rev)-base, g.Kv)
+		case !live && g.Kv != nil:
+			fail("point-read-and-events-diverge", "snapshot %s plus delivered events %s leaves %s absent, a point read returns %v", snapString(snap), evsString(evs), k, g.Kv)
+		}
+	}
+	for _, k := range c09Keys {
+		wk, live := want[k]
+		op := &clientOp{Key: k, Kind: rCreate, Val: "probe"}
+		if live {
+			op = &clientOp{Key: k, Kind: rUpdOK, Exp: wk.rev, Val: "probe"}
+		}
+		w.do(op)
+		vrt.Quiesce()
+		if op.Err != nil || !op.OK {
+			fail("converged-key-not-writable", "snapshot %s plus delivered events %s: afterwards %s on %s (expecting revision %d) answered succeeded=%v err=%v", snapString(snap), evsString(evs), reqNames[op.Kind], k, int64(op.Exp)-base, op.OK, op.Err)
+		}
+	}
+	return len(evs), false
 }
 
 // queuedRevision: the revision of the oldest unresolved write (the faulted one, or a repair attempt
@@ -341,6 +377,166 @@ func (w *world) queuedRevision(frev uint64) uint64 {
 		q = unk[len(unk)-1] // the most recent unresolved attempt is the one still queued
 	}
 	return q
+}
+
+// ---- schedules: the retry loop against a concurrent writer on the same key ----
+
+type c09Sched struct {
+	Fault   int   // the faulted write: 0 create (no earlier history), 1 upd-ok, 2 del-ok (after create)
+	Applied bool  // the unknown-outcome batch was in fact applied
+	Writer  []int // the concurrent client: 0 create, 1 update expecting the faulted revision, 2 update expecting the earlier revision, 3 unconditional delete
+	Repair  int   // fate of the first repair commit
+	Compact bool  // a compaction request runs too
+}
+
+func (c c09Sched) name() string {
+	return fmt.Sprintf("C09/sched/fault=%s/applied=%v/writer=%v/repair-fate=%d/compact=%v", []string{"create", "upd-ok", "del-ok"}[c.Fault], c.Applied, c.Writer, c.Repair, c.Compact)
+}
+
+func c09Scheds(tier string) []c09Sched {
+	out := []c09Sched{
+		{1, true, []int{1}, 0, false},
+		{1, false, []int{2}, 0, false},
+		{0, false, []int{0}, 0, false},
+		{2, true, []int{0}, 0, false},
+		{1, true, []int{3}, 0, true},
+	}
+	if tier == "thorough" {
+		out = append(out,
+			c09Sched{0, true, []int{1}, 0, false},
+			c09Sched{2, false, []int{2}, 0, false},
+			c09Sched{1, false, []int{3, 0}, 0, false},
+			c09Sched{1, true, []int{1}, 2, false},
+			c09Sched{1, false, []int{2}, 3, false},
+			c09Sched{2, true, []int{0}, 1, true},
+			c09Sched{1, true, []int{1, 3}, 0, true},
+		)
+	}
+	return out
+}
+
+func c09SchedScenario(c c09Sched) *mc.Scenario {
+	return &mc.Scenario{Name: c.name(), Body: func(x *mc.X) {
+		fail := func(sig, f string, a ...interface{}) { x.Fail("C09|"+sig, f, a...) }
+		backend.VerifSetIntervals(5*time.Second, time.Second)
+		w := newWorld(hx.Mem, 64)
+		defer w.close()
+		key := c09Keys[0]
+		var prev uint64
+		if c.Fault != 0 {
+			op := &clientOp{Key: key, Kind: rCreate, Val: "v0"}
+			w.do(op)
+			vrt.Quiesce()
+			if !op.OK {
+				panic("initial create failed")
+			}
+			prev = op.Hdr
+		}
+		evCh, werr := w.b.Watch(bg, "/r/", 0)
+		if werr != nil {
+			panic(werr)
+		}
+		snap := map[string]mkv{}
+		if prev != 0 {
+			snap[key] = mkv{key, "v0", prev}
+		}
+		hit, repairHit := false, false
+		w.kv.CommitFault = func(n int, b *hx.BatchRec) hx.FaultKind {
+			if b.Thread == "0.2" { // the retry loop
+				if !repairHit {
+					repairHit = true
+					switch c.Repair {
+					case 1:
+						return hx.FailPlain
+					case 2:
+						return hx.UncertainApplied
+					case 3:
+						return hx.UncertainDropped
+					}
+				}
+				return hx.NoFault
+			}
+			if !hit {
+				hit = true
+				if c.Applied {
+					return hx.UncertainApplied
+				}
+				return hx.UncertainDropped
+			}
+			return hx.NoFault
+		}
+		fop := &clientOp{Key: key, Kind: []reqKind{rCreate, rUpdOK, rDelOK}[c.Fault], Exp: prev, Val: "vf"}
+		w.do(fop)
+		vrt.Quiesce()
+		if !hit || fop.Err == nil {
+			fail("unknown-outcome-reported-as-definite", "the engine answered 'outcome unknown' but the client got succeeded=%v without error", fop.OK)
+			return
+		}
+		frev := w.queuedRevision(0)
+		var wops []*clientOp
+		vrt.BeginExplore()
+		var ths []*vrt.Thread
+		ths = append(ths, vrt.Go(func() { vrt.Advance(6 * time.Second) }))
+		ths = append(ths, vrt.Go(func() {
+			for i, k := range c.Writer {
+				op := &clientOp{Key: key, Val: fmt.Sprintf("w%d", i)}
+				switch k {
+				case 0:
+					op.Kind = rCreate
+				case 1:
+					op.Kind, op.Exp = rUpdOK, frev
+				case 2:
+					op.Kind, op.Exp = rUpdOK, prev
+				case 3:
+					op.Kind = rDel0
+				}
+				wops = append(wops, op)
+				w.do(op)
+			}
+		}))
+		if c.Compact {
+			ths = append(ths, vrt.Go(func() {
+				qlen := backend.VerifRetryQueueLen(w.b)
+				q := w.queuedRevision(frev)
+				r, err := w.b.Compact(bg, 0)
+				if err != nil {
+					fail("compact-error", "%v", err)
+					return
+				}
+				// the queue can only have shrunk by a completed repair; a request that saw the entry queued
+				// before it began and still answers at or above it is judged only when the entry is still queued after
+				if qlen > 0 && backend.VerifRetryQueueLen(w.b) > 0 && w.queuedRevision(frev) == q && r.Header.GetRevision() >= q {
+					fail("compaction-passes-unresolved-revision", "Compact answered revision %d while the write at revision %d is unresolved", int64(r.Header.GetRevision())-base, int64(q)-base)
+				}
+			}))
+		}
+		for _, t := range ths {
+			vrt.Join(t)
+		}
+		vrt.Quiesce()
+		vrt.EndExplore()
+		for i := 0; i < 6 && backend.VerifRetryQueueLen(w.b) > 0; i++ {
+			vrt.Advance(6 * time.Second)
+			vrt.Quiesce()
+		}
+		if n := backend.VerifRetryQueueLen(w.b); n > 0 {
+			fail("never-converges", "the retry queue still holds %d entries after 6 retry intervals", n)
+		}
+		if committed, issued := backend.VerifPeek(w.b); committed != issued {
+			fail("stalled-while-queued", "at the end: read revision %d, handed out %d", committed, issued)
+		}
+		var acked []*clientOp
+		var outs []string
+		for _, op := range wops {
+			if op.OK {
+				acked = append(acked, op)
+			}
+			outs = append(outs, fmt.Sprintf("%s:%v/%v", reqNames[op.Kind], op.OK, op.Err != nil))
+		}
+		nevs, _ := c09Final(w, evCh, snap, acked, fail)
+		x.Obs = fmt.Sprintf("%v events=%d", outs, nevs)
+		w.clean = true
+	}}
 }
 
 type c09Job struct{ From, To int }
@@ -397,9 +593,16 @@ func init() {
 	mc.Register(&mc.Property{
 		ID:     "C09",
 		Level:  "fault_enumeration",
-		Rule:   "exhaustive enumeration: every history of 0-2 writes x an unknown-outcome fault on the commit of each of 6 write kinds x both variants (batch applied / not applied) x every continuation of up to 2 (thorough 3) steps from {6 writes, compaction, retry interval elapses} x 4 fates of the first repair commit (ok, plain error, unknown+applied, unknown+not applied), run on the real backend with the real sequencer and retry loop on a virtual clock; a case is distinct by its parameters and non-trivial when the fault actually hit a commit",
-		Assume: []string{"in-memory engine; the unknown outcome is injected at the storage.KvStorage seam", "retry / check interval 5 s / 1 s on the virtual clock", "single client, default schedule (thorough explores the retry loop against a writer under C19's harness)"},
+		Rule:   "exhaustive enumeration: every history of 0-2 writes x an unknown-outcome fault on the commit of each of 6 write kinds x both variants (batch applied / not applied) x every continuation of up to 2 (thorough 3) steps from {6 writes, compaction, retry interval elapses} x 4 fates of the first repair commit (ok, plain error, unknown+applied, unknown+not applied), run on the real backend with the real sequencer and retry loop on a virtual clock; a case is distinct by its parameters and non-trivial when the fault actually hit a commit; plus every schedule (preemption-bounded DFS, bound 1 quick / 2 thorough) of the retry loop firing while a client writes the same key (create / update expecting the unresolved revision / update expecting the earlier revision / unconditional delete) and optionally a compaction request, for create / update / delete faulted, applied or not, with the same convergence oracle",
+		Assume: []string{"in-memory engine; the unknown outcome is injected at the storage.KvStorage seam", "retry / check interval 5 s / 1 s on the virtual clock", "the enumeration uses a single client and the default schedule; the schedule scenarios cover the retry loop against a concurrent writer on the same key (and a compaction request)"},
 		Exec:   c09Exec,
+		Scenarios: func(tier string) []*mc.Scenario {
+			var out []*mc.Scenario
+			for _, c := range c09Scheds(tier) {
+				out = append(out, c09SchedScenario(c))
+			}
+			return out
+		},
 		Drive: func(c *mc.Ctx) {
 			n := len(c09Cases(c.Tier))
 			chunk := 200
@@ -414,6 +617,18 @@ func init() {
 			c.Pool.Wait()
 			c.Cov["cases"] = n
 			c.Cov["distinct_nontrivial"] = c.Agg.States
+			c.Cov["cases_executions"] = c.Agg.Execs
+			mc.DriveSchedules(c, func(i int, sc *mc.Scenario) mc.SchedPlan {
+				p := mc.SchedPlan{Class: "retry-loop-vs-writer", Bounds: []int{0, 1}, Shard: true}
+				if c.Tier == "thorough" {
+					p.Bounds = []int{0, 1, 2}
+				}
+				if strings.HasSuffix(sc.Name, "compact=true") {
+					p.Class += "-and-compaction"
+					p.Bounds = p.Bounds[:len(p.Bounds)-1]
+				}
+				return p
+			})
 		},
 	})
 }
